@@ -622,6 +622,54 @@ def real_nullables(ns: dict, cls: str, fields, type_args: tuple = ()) -> list:
         return [True] * (len(fields) + 1)
 
 
+EMIT_DEFS = """
+(* the text the TRANSLATED emitters (kernel K108a) produce = the text the real ones wrote on the real class *)
+Definition ecase_ok (c: kv * string * bool * bool * string * option string * bool * bool * list string) : bool :=
+  match c with (dv, lit, isnan, sba, fname, al, baf, od, expected) =>
+    match set_value dv (KStr lit) (KBool isnan) (KBool sba) (KStr fname) (match al with Some a => KStr a | None => KNone end)
+                    (KBool baf) (KStr "<packed>") (KBool od) with
+    | Ok l => strs_eqb (render 6 "" l) expected
+    | _ => false end end.
+"""
+
+
+def repr_simple(s: str) -> bool:
+    """str whose repr OptEmit.py_repr renders: printable ASCII, no backslash, not both kinds of quotes"""
+    return all(32 <= ord(c) < 127 and c != "\\" for c in s) and not ("'" in s and '"' in s)
+
+
+def emitted_cases(ns: dict, cls: str, fields, dialect, ecases: dict):
+    """_pack_method_set_value of a REAL builder of the class for every field x by_alias feature x omit_default: the lines
+    it writes, next to the arguments the translated emitter gets.  Fails closed (a case that never holds)."""
+    from dataclasses import MISSING
+    try:
+        from mashumaro.core.meta.code.builder import CodeBuilder
+        b = CodeBuilder(ns[cls], dialect=dialect)
+        b.reset()
+        sba = bool(b.get_dialect_or_config_option("serialize_by_alias", False))
+        literal_of = b.get_field_default_literal
+        for f in fields:
+            if not repr_simple(f.name) or (f.alias is not None and not repr_simple(f.alias)):
+                continue
+            default = b.get_field_default(f.name, call_factory=True)
+            has = default is not MISSING
+            lit = literal_of(default) if has else ""
+            # the literal of a default without a Python literal is a fresh name on every call: the emitter under test gets the
+            # one computed here (the abstraction a_default_literal of kernel K108a)
+            b.get_field_default_literal = lambda v, _l=lit: _l
+            isnan = isinstance(default, float) and math.isnan(default)
+            for baf in (False, True):
+                for od in (False, True):
+                    b.lines.reset()
+                    b._pack_method_set_value(f.name, f.alias, baf, "<packed>", od)
+                    text = b.lines.as_text().split("\n")
+                    al = "None" if f.alias is None else f"(Some {coq_str(f.alias)})"
+                    ecases[f"({'(KObj 7)' if has else 'KMissing'}, {coq_str(lit)}, {coq_bool(isnan)}, {coq_bool(sba)}, "
+                           f"{coq_str(f.name)}, {al}, {coq_bool(baf)}, {coq_bool(od)}, {coq_list(coq_str(t) for t in text)})"] = None
+    except Exception as ex:
+        ecases[f"(KMissing, \"\", false, false, \"\", None, false, false, []) (* {type(ex).__name__} *)"] = None
+
+
 # ---------------------------------------------------------------------------
 # one flat evaluation: real classes, oracle, case for the correspondence
 # ---------------------------------------------------------------------------
@@ -820,8 +868,17 @@ def gen_table(rng, unions: bool = True, inherit: bool = True, generics: float = 
             if later and (rng.random() < 0.55 or (cid == 0 and i == 0)):
                 k = rng.random()
                 if unions and len(later) >= 2 and k < 0.3:
-                    mem = tuple(rng.sample(later, rng.randint(2, min(3, len(later)))))
-                    fields.append(DcField(nm, mem, False, al, False))
+                    mem = rng.sample(later, rng.randint(2, min(3, len(later))))
+                    # a specialised generic class is a union member only in first position, and only one of them: after
+                    # another member, that member's call `value.__mashumaro_to_dict__()` succeeds on the generic instance
+                    # with the UNSPECIALISED method -- already in the option-free twin (the plain output itself is off:
+                    # a defect of union packing, not of the options; reported, outside this property)
+                    spec = [m for m in mem if table[m].generic and table[m].targ]
+                    mem = tuple(spec[:1] + [m for m in mem if m not in spec])
+                    if len(mem) >= 2:
+                        fields.append(DcField(nm, mem, False, al, False))
+                    else:
+                        fields.append(DcField(nm, mem, rng.random() < 0.4, al, False))
                 elif k < 0.45:
                     fields.append(DcField(nm, (rng.choice(later),), False, al, rng.random() < 0.05, many=True))
                 elif k < 0.58:
@@ -1352,7 +1409,7 @@ def run_generic(ctx: vlib.Ctx, ncases: list[str], ninfo: list, ccases: list[str]
     other = NCls(Opts(), (FieldSpec("z", "optint", "val", "None", None, False),), False)
     shapes = [DcField("i", (1,), False, "in", False), DcField("i", (1,), True, None, False),
               DcField("i", (1,), False, None, False, many=True), DcField("i", (1,), False, None, False, mapping=True),
-              DcField("i", (2, 1), False, None, False)]
+              DcField("i", (1, 2), False, None, False)]
     for targ, gsh in list(GENERIC_SHAPES.items()) + [("<B>", BOUND_SHAPE)]:
         gv = FieldSpec("gv", gsh.key, "no", None, "GV", False)
         leaf = FieldSpec("y", "optint", "val", "None", None, False)
@@ -1435,7 +1492,7 @@ def record_failure(ctx, ev: Eval, rep: dict, sig: dict):
     ctx.fail(ev.what[:300], rep, sig)
 
 
-def run_flat(ctx: vlib.Ctx, cases: list[str], case_info: list):
+def run_flat(ctx: vlib.Ctx, cases: list[str], case_info: list, ecases: dict | None = None):
     rng = ctx.rng
     n_classes = ctx.budget(260, 2600)
     for ci in range(n_classes):
@@ -1456,6 +1513,8 @@ def run_flat(ctx: vlib.Ctx, cases: list[str], case_info: list):
             ctx.count(flat_key(fields, o0, vals))
             record_failure(ctx, ev, flat_replay_dict(ev), flat_signature(ev))
             continue
+        if ecases is not None and entry != "codec" and ci % 3 == 0:
+            emitted_cases(ns, "X", fields, ns["CallD"] if o0.call is not None else None, ecases)
         variants = [o0] if entry == "codec" else kw_variants(o0, rng, 2)
         for o in variants:
             for _ in range(2):
@@ -1629,6 +1688,7 @@ def run(ctx: vlib.Ctx):
     ctx.theorems("props/C08_kernel_K14.vo", ["K14_passdown", "K14_pass_dd"], kernels=["K14"])
     ctx.theorems("props/C08_kernel_K17.vo", ["K17_nullable", "K17_nullable_declared_partial", "K17_bound_refuted"], kernels=["K17"])
     ctx.theorems("props/C08_kernel_K18.vo", ["K18_bookkeeping", "K18_use_kwargs"], kernels=["K18", "K8"])
+    ctx.theorems("props/C08_kernel_K108a.vo", ["K108a_set_value", "K108a_emit_kw"], kernels=["K108a"])
     ctx.theorems("props/C08_project.vo", thm)
     ctx.theorems("props/C08_fix.vo", ["C08_project_fixed_full"])
     ctx.theorems("props/C08_nested.vo", ["C08_nested_partial", "C08_union_flags_refuted", "C08_subclass_flags_refuted", "C08_forwarded_exactly", "C08_no_leak",
@@ -1648,7 +1708,8 @@ def run(ctx: vlib.Ctx):
 
     cases: list[str] = []
     info: list = []
-    run_flat(ctx, cases, info)
+    ecases: dict = {}
+    run_flat(ctx, cases, info, ecases)
     run_lattice(ctx, cases, info)
     run_edge(ctx, cases, info)
 
@@ -1704,6 +1765,20 @@ def run(ctx: vlib.Ctx):
             r = cinfo[bad[0]]
             detail = f"{len(bad)} cases, first: {r['entry']} {r['instance']} default_dialect {r['default_dialect']} observed {r['observed']}\n{r['source']}"
         ctx.correspondence(name, len(ccases), len(bad), detail)
+        if bad:
+            ctx.not_shown("correspondence " + name, detail)
+
+    name = "emitted-text-K108a-vs-_pack_method_set_value"
+    elist = list(ecases)
+    bad, log = vlib.coq_bad_idx("c08_emit", "OptProj PyK_c08 OptEmit", "From VerifGen Require Import K108a.", EMIT_DEFS, elist,
+                                "ecase_ok", "kv * string * bool * bool * string * option string * bool * bool * list string",
+                                shard=400, needs=["theories/OptEmit.vo"])
+    if bad is None:
+        ctx.correspondence(name, len(elist), -1, log)
+        ctx.not_shown("correspondence " + name, log)
+    else:
+        detail = f"{len(bad)} cases, first: {elist[bad[0]][:600]}" if bad else ""
+        ctx.correspondence(name, len(elist), len(bad), detail)
         if bad:
             ctx.not_shown("correspondence " + name, detail)
 
